@@ -134,6 +134,16 @@ CHECKS.update({
     tech='TLA+ module-flattening semantics enumerated by TLC; creation/use histories replayed into the implementation'),
 })
 
+CHECKS.update({
+ 'C11': dict(engine=PEG, cat='model_checking', ref='DESIGN.md §7 C11',
+    text='MC_C11 enumerates the configuration lattice ({named, unnamed} x include_source x saved-and-executed source x '
+         'compiled once/twice; ConfigIndependent); a feature-covering slice of the TLC families of C02-C06, C10, C17 is '
+         'replayed under every configuration, the saved _source_code in a fresh `python -I -S` interpreter whose import '
+         'log must stay inside the standard library; every configuration must show the spec outcome and all must agree',
+    note='trusted: PegSem expectations of the source families; bound: ~150 grammars x 12 configurations x <= 24 inputs',
+    tech='TLA+ configuration lattice + reference semantics; every configuration replayed into the implementation'),
+})
+
 PENDING = {}
 
 
